@@ -475,6 +475,20 @@ func checkText(c TextCase) error {
 		if err := ut.UnmarshalText(mt); err != nil || ut != cv {
 			return fail("UnmarshalText(%q) = %d, %v", mt, ut, err)
 		}
+		// the same into variables that already hold something (a field decoded into repeatedly, a reused slice element):
+		// what was there before does not show through, whichever text form arrives
+		for _, before := range []types.Currency{types.NewCurrency(^uint64(0), 1<<40), types.NewCurrency(7, 1), types.MaxCurrency} {
+			for name, s := range forms {
+				used := before
+				if err := used.UnmarshalText([]byte(s)); err != nil || used != cv {
+					return stats.Failf("C15/text/used-receiver", "%s: UnmarshalText(%s form %q) into a variable holding %d gives %d, %v", c.V, name, s, before, used, err)
+				}
+			}
+			usedJS := before
+			if js, err := json.Marshal(cv); err != nil || json.Unmarshal(js, &usedJS) != nil || usedJS != cv {
+				return stats.Failf("C15/text/used-receiver", "%s: json.Unmarshal into a variable holding %d gives %d", c.V, before, usedJS)
+			}
+		}
 		js, err := json.Marshal(cv)
 		if err != nil {
 			return fail("json.Marshal: %v", err)
